@@ -30,6 +30,11 @@ var content05 = []leaf05{
 	{"t1", "", "a/k", true, 5, false, false}, {"t1", "", "c/a/b", false, 6, false, false}, {"t2", "", "a/b", false, 7, false, false}, {"t2", "o", "b", false, 8, false, false},
 	{"t1", "", "c/at", false, 9, true, false},
 	{"t1", "", "c/p", false, 10, false, true},
+	// sibling names of which one is a proper STRING prefix of the other (f/fg,
+	// e/ef, h/hh): "covered by an earlier path" is a question about elements,
+	// never about the joined strings
+	{"t1", "", "e/f", false, 11, false, false}, {"t1", "", "e/fg", false, 12, false, false}, {"t1", "", "ef/x", false, 13, false, false},
+	{"t1", "", "g/h/i", false, 14, false, false}, {"t1", "", "g/hh/i", false, 15, false, false},
 }
 
 func (l leaf05) index() []string {
@@ -141,7 +146,8 @@ func configs05(tier string) []xplore.Config {
 			}
 		}
 		// two paths per list (overlapping and disjoint)
-		for _, pair := range [][]string{{"a", "a/b"}, {"a/b", "b"}, {"*", "a"}, {"a/*", "*/b"}, {"o:a", "a"}, {"b", "b"}, {"c/*", "c/at"}, {"a/k", "a/*"}} {
+		for _, pair := range [][]string{{"a", "a/b"}, {"a/b", "b"}, {"*", "a"}, {"a/*", "*/b"}, {"o:a", "a"}, {"b", "b"}, {"c/*", "c/at"}, {"a/k", "a/*"},
+			{"e/f", "e/fg"}, {"e/fg", "e/f"}, {"e", "ef"}, {"ef", "e"}, {"g/h", "g/hh"}, {"g/h/i", "g/hh/i"}, {"e/f", "e/fg", "ef"}, {"a", "a", "a/b"}} {
 			add(sub05{target: tg, paths: pair, mode: pb.SubscriptionList_ONCE}, sb)
 			for polls := 0; polls <= 2; polls++ {
 				add(sub05{target: tg, paths: pair, mode: pb.SubscriptionList_POLL, polls: polls}, sb-polls/2)
